@@ -29,13 +29,13 @@ Observable(st) ==
 RECURSIVE Run(_, _)
 Run(st, rs) == IF rs = <<>> THEN st ELSE Run(Step(st, Head(rs), K).s, Tail(rs))
 \* tree side: every channel ready and advanced (secrets 0..NMax released)
-Prepared == Run(Init(K), [k \in 1..(3 * NIds) |->
+Prepared == Run(Init0(K), [k \in 1..(3 * NIds) |->
                LET i == ((k - 1) \div 3) + 1 IN
                CASE (k - 1) % 3 = 0 -> [op |-> "New", id |-> i]
                  [] (k - 1) % 3 = 1 -> [op |-> "Setup", id |-> i, al |-> FALSE, v |-> "A"]
                  [] OTHER           -> [op |-> "Advance", id |-> i]])
 
-MCInit == /\ s = IF Side = "tree" THEN Prepared ELSE Init(K)
+MCInit == /\ s = IF Side = "tree" THEN Prepared ELSE Init0(K)
           /\ g = Ghost(InitGhost, Observable(s))
           /\ last = [op |-> "init"]
 
